@@ -232,9 +232,10 @@ def pipeCheck (s : Pipeline.Sys) : Option String :=
   else none
 
 def pipeValidate (U C T : Nat) (i0s : List Nat) (evs : List String) : String := Id.run do
-  -- The number of chunk buffers the loader allows itself is a tuning constant, not part of the property: the model is
-  -- parametric in `limit`, and the validator learns it from the run (the first time the loader goes to the recycling
-  -- stack instead of creating a buffer); afterwards it must be respected.
+  -- How many chunk buffers the loader allows itself, and whether it prefers a recycled buffer to a new one, is a tuning
+  -- policy, not part of the property: the model is parametric in `limit`, and the validator lets the observed run decide
+  -- at each visit of the loader's `top` state (next loader record on the recycling mutex = it went for a recycled
+  -- buffer; otherwise it created one). A policy that can block for ever is caught by the deadlock watchdog instead.
   let mut s := { Pipeline.Sys.create U T C with limit := 1000000 }
   let mut i := 0
   for raw in evs do
@@ -244,7 +245,7 @@ def pipeValidate (U C T : Nat) (i0s : List Nat) (evs : List String) : String := 
     let u := (f.getD 2 "").toNat?.getD 0
     let ph := f.getD 3 ""
     let fin := f.getD 4 ""
-    if who == "L" && kind == "r" && s.lpc == .top && s.limit == 1000000 && s.nalloc ≥ 1 then s := { s with limit := s.nalloc }
+    if who == "L" && s.lpc == .top then s := { s with limit := if kind == "r" then s.nalloc else s.nalloc + 1 }
     if who == "L" then s := loaderLocals s
     let tid := if kind == "o" then (f.getD 9 "").toNat?.getD 0 else if kind == "r" then (f.getD 6 "").toNat?.getD 0 else 0
     let stack : List Nat := if kind == "r" then (let t := f.getD 5 "-"; if t == "-" then [] else (t.splitOn ".").filterMap String.toNat?) else []
